@@ -341,33 +341,33 @@ theorem siteParams_pin : Gen.CacheWrite.siteParams = [("cache_set_c0", ["oldVisi
   ("cache_evictNodes_c0", ["c_withEviction"]),
   ("cache_climb_c0", ["c_withEviction"])] := by rfl
 
-theorem shape_pin : Gen.CacheWrite.shape = [("cache_Set", [0, 0, 0, 1]),
-  ("cache_SetIfAbsent", [0, 0, 0, 1]),
-  ("cache_set", [4, 0, 4, 0]),
-  ("cache_atomicSet", [3, 0, 5, 1]),
-  ("cache_atomicDelete", [2, 0, 2, 1]),
-  ("cache_Compute", [0, 0, 0, 1]),
-  ("cache_ComputeIfAbsent", [3, 0, 2, 1]),
-  ("cache_ComputeIfPresent", [2, 0, 2, 1]),
-  ("cache_doCompute", [13, 0, 7, 0]),
-  ("cache_afterWrite", [3, 0, 0, 0]),
-  ("cache_Invalidate", [1, 0, 2, 0]),
-  ("cache_deleteNodeFromMap", [2, 0, 2, 0]),
-  ("cache_deleteNode", [0, 0, 0, 0]),
-  ("cache_afterDelete", [3, 0, 1, 0]),
-  ("cache_notifyDeletion", [1, 0, 0, 0]),
-  ("cache_notifyAtomicDeletion", [1, 0, 0, 0]),
-  ("cache_evictNode", [4, 0, 3, 0]),
-  ("cache_evictNodeBySize", [0, 0, 0, 0]),
-  ("cache_InvalidateAll", [3, 0, 7, 0]),
-  ("cache_runTask", [8, 0, 2, 0]),
-  ("cache_getTask", [1, 0, 4, 2]),
-  ("cache_putTask", [0, 0, 4, 0]),
-  ("cache_makeRetired", [1, 0, 0, 0]),
-  ("cache_makeDead", [3, 0, 0, 0]),
-  ("cache_onAccess", [3, 0, 0, 0]),
-  ("cache_expireNodes", [1, 0, 0, 0]),
-  ("cache_evictNodes", [1, 0, 0, 0]),
-  ("cache_climb", [1, 0, 0, 0])] := by rfl
+theorem shape_pin : Gen.CacheWrite.shape = [("cache_Set", [0, 0, 0, 1, 0]),
+  ("cache_SetIfAbsent", [0, 0, 0, 1, 0]),
+  ("cache_set", [4, 0, 4, 0, 0]),
+  ("cache_atomicSet", [3, 0, 5, 1, 0]),
+  ("cache_atomicDelete", [2, 0, 2, 1, 0]),
+  ("cache_Compute", [0, 0, 0, 1, 0]),
+  ("cache_ComputeIfAbsent", [3, 0, 2, 1, 0]),
+  ("cache_ComputeIfPresent", [2, 0, 2, 1, 0]),
+  ("cache_doCompute", [13, 0, 7, 0, 1]),
+  ("cache_afterWrite", [3, 0, 0, 0, 0]),
+  ("cache_Invalidate", [1, 0, 2, 0, 0]),
+  ("cache_deleteNodeFromMap", [2, 0, 2, 0, 0]),
+  ("cache_deleteNode", [0, 0, 0, 0, 0]),
+  ("cache_afterDelete", [3, 0, 1, 0, 0]),
+  ("cache_notifyDeletion", [1, 0, 0, 0, 0]),
+  ("cache_notifyAtomicDeletion", [1, 0, 0, 0, 0]),
+  ("cache_evictNode", [4, 0, 3, 0, 0]),
+  ("cache_evictNodeBySize", [0, 0, 0, 0, 0]),
+  ("cache_InvalidateAll", [3, 0, 7, 0, 0]),
+  ("cache_runTask", [8, 0, 2, 0, 0]),
+  ("cache_getTask", [1, 0, 4, 2, 0]),
+  ("cache_putTask", [0, 0, 4, 0, 0]),
+  ("cache_makeRetired", [1, 0, 0, 0, 0]),
+  ("cache_makeDead", [3, 0, 0, 0, 0]),
+  ("cache_onAccess", [3, 0, 0, 0, 0]),
+  ("cache_expireNodes", [1, 0, 0, 0, 0]),
+  ("cache_evictNodes", [1, 0, 0, 0, 0]),
+  ("cache_climb", [1, 0, 0, 0, 0])] := by rfl
 
 end OtterVerif.Pin.CacheWrite
